@@ -5,7 +5,7 @@ F = "C16_wire.py"
 
 def spec(tier):
     q = tier == "quick"
-    T = 150 if q else 1200
+    T = 200 if q else 1500
     obs = [
         XH("W.send", F, "send", T, what="every writer (_send via write_response/write_error/send_notification, write_rpc_request/notification): Content-Length == UTF-8 byte length of the body for a FREE symbolic body string (any Unicode, len<=4) under the json.dumps contract selected by the call site's ensure_ascii"),
         *parts("R.recv", F, "recv", 8, T, what="two back-to-back frames, body = <=2/<=3 tokens over 1..4-byte chars, LF, CRLF and a look-alike header line; 4 header layouts incl. Content-Type first and an extra header: decoded to exactly the bodies, then EOF"),
